@@ -720,7 +720,10 @@ impl<'a> ExpressionLoweringManager<'a> {
         let id_type = lowered_expression.type_().as_id().unwrap();
         let resolved_struct_mappings = self.resolve_struct_mapping_of_id_type(id_type);
         let mut acc = LoweringResult { statements: Vec::new(), expression: hir::ONE };
-        for (index, nested) in elements.iter().enumerate().rev() {
+        for nested in elements.iter().rev() {
+          // Fields are matched by name: the element's position in the pattern is not the
+          // position of the field in the class.
+          let index = nested.field_order;
           let field_type = &resolved_struct_mappings[index];
           let name = self.allocate_temp_variable();
           let LoweringResult {
